@@ -147,7 +147,18 @@ func (sb *sbroker) handle(frame []byte) []byte {
 	if sb.verbose {
 		fmt.Printf("    broker <- %s v%d (%d bytes)\n", kmsg.NameForKey(key), ver, len(frame))
 	}
-	if max, ok := sb.vers.LookupMaxKeyVersion(key); !ok || ver > max {
+	if max, ok := sb.vers.LookupMaxKeyVersion(key); key == 18 && ok && ver > max {
+		// What Kafka does with an ApiVersions version it does not know: a v0
+		// response with UNSUPPORTED_VERSION; since 2.4 (KIP-511, ApiVersions
+		// v3) it names the version to retry with.
+		resp := kmsg.NewPtrApiVersionsResponse()
+		resp.Version = 0
+		resp.ErrorCode = 35
+		if max >= 3 {
+			resp.ApiKeys = append(resp.ApiKeys, kmsg.ApiVersionsResponseApiKey{ApiKey: 18, MinVersion: 0, MaxVersion: max})
+		}
+		return frameResponse(resp, corr)
+	} else if !ok || ver > max {
 		sb.problem("client sent %s v%d, the script advertises max v%d (known=%v)", kmsg.NameForKey(key), ver, max, ok)
 		return nil
 	}
